@@ -147,15 +147,16 @@ func classify(more, nonStart error) func(error) string {
 	}
 }
 
-// distinct wraps a frame generator so that consecutive frames differ (the generic C07 oracle
-// recognises a frame by its content).
+// distinct wraps a frame generator so that all frames of one instance differ (the generic C07
+// oracle recognises a frame by its content, also across a dropped frame).
 func distinct(gen func(r *rand.Rand) cu.Frame) func(r *rand.Rand) cu.Frame {
-	var last cu.Frame
+	seen := map[string]bool{}
 	return func(r *rand.Rand) cu.Frame {
-		for {
+		for tries := 0; ; tries++ {
 			f := gen(r)
-			if last == nil || !frameEq(f, last) {
-				last = f
+			k := unitsStr(f)
+			if !seen[k] || tries > 200 {
+				seen[k] = true
 				return f
 			}
 		}
